@@ -317,8 +317,13 @@ func own(c *mon.Ctx, r *gen.Rand) {
 	// Dolby Vision descriptor: version major, minor, profile(7) level(6) rpu(1) el(1) bl(1), ...
 	prof, lvl := r.Intn(128), r.Intn(32)
 	w16 := uint16(prof)<<9 | uint16(lvl)<<3 | uint16(r.Intn(8))
-	body = []byte{r.Byte(), r.Byte(), byte(w16 >> 8), byte(w16)}
-	body = append(body, r.Bytes(r.Intn(5))...)
+	// a well-formed body has the compatibility byte and, without a base layer
+	// (lowest flag 0), the two bytes that name the PID it depends on
+	body = []byte{r.Byte(), r.Byte(), byte(w16 >> 8), byte(w16), r.Byte()}
+	if w16&1 == 0 {
+		body = append(body, r.Bytes(2)...)
+	}
+	body = append(body, r.Bytes(r.Intn(4))...)
 	d = psi.NewPmtDescriptor(0xb0, body)
 	want := fmt.Sprintf("dvhe.%02d.%02d", prof, lvl)
 	if g := d.DecodeDolbyVisionCodec(r.PickString([]string{"hvc1", "hvc1", "", "hev1.2.4.L153.B0", "avc1.640028", "avc3", "dvhe", "dvav.09.05", "mp4a"})); g != want {
@@ -641,6 +646,18 @@ func run(c *mon.Ctx) {
 					gone[s.PID] = true
 				}
 			}
+			if own := m.Pids(); round == 0 && len(own) >= 1 && r.Chance(4) {
+				// the list of PIDs to remove is (a stretch of) the list the PMT itself handed out
+				for _, pid := range rm {
+					delete(gone, pid)
+				}
+				a := r.Intn(len(own))
+				rm = own[a : a+1+r.Intn(len(own)-a)]
+				for _, pid := range rm {
+					gone[pid] = true
+				}
+				c.Count("pmt_query.removal_list_is_the_pmts_own_pid_list")
+			}
 			m.RemoveElementaryStreams(rm)
 			if !check("after-removal") || !descsOK("after removal") {
 				return
@@ -672,7 +689,7 @@ func run(c *mon.Ctx) {
 			}
 			prof, lvl := q.Intn(128), q.Intn(32)
 			w16 := uint16(prof)<<9 | uint16(lvl)<<3 | uint16(q.Intn(8))
-			dv := psi.NewPmtDescriptor(0xb0, []byte{1, 0, byte(w16 >> 8), byte(w16), 0})
+			dv := psi.NewPmtDescriptor(0xb0, []byte{1, 0, byte(w16 >> 8), byte(w16), 0, 0xe1, 0x00})
 			if g, want := dv.DecodeDolbyVisionCodec("hvc1"), fmt.Sprintf("dvhe.%02d.%02d", prof, lvl); g != want {
 				return fmt.Sprintf("DecodeDolbyVisionCodec = %q, encoded profile %d level %d (%q)", g, prof, lvl, want)
 			}
